@@ -117,7 +117,7 @@ func (a c14Attr) under(prefix string) c14Attr {
 	re := func(s string) string { return strings.ReplaceAll(s, "{{ ", "{{ "+prefix) }
 	switch a.kind {
 	case "static":
-		if a.key == "v-show" {
+		if a.key == "v-show" || a.key == "v-text" || a.key == "v-html" {
 			b.val = prefix + a.val
 		} else if !strings.HasPrefix(a.key, "[") {
 			b.val = re(a.val)
@@ -142,7 +142,7 @@ func init() { streams["C14"] = runC14 }
 
 func runC14(r *Run) {
 	r.Imports = []string{"Base.Val", "Model.Attrs"}
-	r.Rule("one probe element carrying up to 5 attributes over a vocabulary of static (plain / with mustaches), :name and v-bind:name bound, bound-with-mustache, object syntax on class / style / other names (path and literal values, quoted keys, camelCase style keys, hyphenated keys with capitals such as CSS custom properties), " +
+	r.Rule("one probe element carrying up to 8 attributes over a vocabulary of static (plain / with mustaches), :name and v-bind:name bound, bound-with-mustache, object syntax on class / style / other names (path and literal values, quoted keys, camelCase style keys, hyphenated keys with capitals such as CSS custom properties), " +
 		"bracketed [name], v-show and other directives, including several bound attributes, static/bound collisions on class, style and ordinary names; values of every kind and truthiness; " +
 		"observable: the ordered attribute list of the element as an HTML parser reads it back; non-trivial: >= 2 attributes that interact (same name, class/style merge, v-show with style)")
 	r.Assume("attribute values contain no HTML-special characters (escaping is C01/C02); object-literal values are paths or simple literals; one attribute per written name")
@@ -209,13 +209,73 @@ func runC14(r *Run) {
 		}
 		return a
 	}
+	// every attribute count 1..10 around v-show, with and without a static style, content directive and bound
+	// attribute, as the body of a loop whose rows alternate between shown and hidden
+	for pads := 0; pads <= 7; pads++ {
+		for _, dir := range []string{"", "v-text", "v-html"} {
+			for _, style := range []string{"", "color: red", "display:block;margin:0"} {
+				for _, bound := range []bool{false, true} {
+					for _, cond := range []string{"r.t", "r.n", "r.s"} {
+						attrs := []c14Attr{{kind: "static", key: "data-m", val: "1"}}
+						if style != "" {
+							attrs = append(attrs, c14Attr{kind: "static", key: "style", val: style})
+						}
+						attrs = append(attrs, c14Attr{kind: "static", key: "v-show", val: cond})
+						if dir != "" {
+							attrs = append(attrs, c14Attr{kind: "static", key: dir, val: "r.cls"})
+						}
+						if bound {
+							attrs = append(attrs, c14Attr{kind: "bound", key: "title", val: "r.fs"})
+						}
+						for i := 0; i < pads; i++ {
+							attrs = append(attrs, c14Attr{kind: "static", key: fmt.Sprintf("data-p%d", i), val: fmt.Sprint(i)})
+						}
+						var parts []string
+						for _, a := range attrs {
+							parts = append(parts, a.Source())
+						}
+						for _, shape := range []string{`<ul><li v-for="r in rows"><p %s>x</p></li></ul>`, `<p v-for="r in rows" %s>x</p>`} {
+							src := fmt.Sprintf(shape, strings.Join(parts, " "))
+							ld := data.Go().(map[string]any)
+							var rowsGo []any
+							for _, rw := range rows {
+								rowsGo = append(rowsGo, rw.Go())
+							}
+							ld["rows"] = rowsGo
+							out, err := c03RenderAny(src, ld)
+							var got []Obs
+							if err == nil {
+								got = c14ProbeAll(out)
+							}
+							for i, rw := range rows {
+								var o Obs
+								switch {
+								case err != nil:
+									o = L(A("error"), A(err.Error()))
+								case i < len(got):
+									o = got[i]
+								default:
+									o = L()
+								}
+								coq := fmt.Sprintf("{| c_data := %s; c_attrs := %s |}", VMap(append(append([]KV{}, data.M...), KV{K: "r", V: rw})...).Normalize().Coq(), coqList(attrs, c14Attr.Coq))
+								r.Case("attrs", coq, o, map[string]any{"template": src, "row": i, "output": out}, map[string]string{"shape": "loop-grid"}, true)
+							}
+						}
+					}
+				}
+			}
+		}
+	}
 	for c := 0; c < n; c++ {
 		attrs := []c14Attr{{kind: "static", key: "data-m", val: "1"}}
 		written := map[string]bool{"data-m": true}
-		k := 1 + rr.Intn(5)
+		k := 1 + rr.Intn(7)
 		for i := 0; i < k; i++ {
 			var a c14Attr
 			name := Pick(rr, names)
+			if rr.Intn(5) == 0 {
+				name = Pick(rr, []string{"lang", "dir", "role", "tabindex", "data-y", "data-z"}) // more names: longer attribute lists without collisions
+			}
 			switch rr.Intn(12) {
 			case 0, 1:
 				a = c14Attr{kind: "static", key: name, val: Pick(rr, []string{"lit", "a b", "color: red; margin:0", "x {{ s }} y", "{{ n }}", "", "width:1px;color:green"})}
@@ -235,6 +295,11 @@ func runC14(r *Run) {
 				a = c14Attr{kind: "static", key: "[" + name + "]", val: Pick(rr, []string{"lit", "{{ s }}", "a}}b"})}
 			case 9, 10:
 				a = c14Attr{kind: "static", key: "v-show", val: Pick(rr, paths)}
+				if rr.Intn(2) == 0 && !written["v-text"] && !written["v-html"] { // the element's content comes from a directive too
+					t := c14Attr{kind: "static", key: Pick(rr, []string{"v-text", "v-html"}), val: Pick(rr, []string{"s", "cls", "n", "e", "zz"})}
+					written[t.key] = true
+					attrs = append(attrs, t)
+				}
 			default:
 				a = c14Attr{kind: "static", key: Pick(rr, []string{"v-once", "v-keep", "v-pre-x"}), val: ""}
 			}
@@ -310,7 +375,7 @@ func runC14(r *Run) {
 		r.Case("attrs", coq, obs, map[string]any{"template": src}, map[string]string{}, inter > 0)
 		// the same element as the body of a loop: every row has values of its own, and what one row's evaluation does
 		// to the element must not show on the next (each row: the model's answer over that row's values)
-		if c%4 == 0 && err == nil {
+		if c%3 == 0 && err == nil {
 			kw := false
 			for _, a := range attrs {
 				t := a.Source()
